@@ -72,7 +72,7 @@ func (g *G) mappable(a *m.Attr) (path, query, header, cookie bool) {
 	query = isPrim || primArray
 	header = isPrim || primArray
 	cookie = isPrim && g.p.Cookies
-	if cookie && k != m.String && g.avoid("C01-cookie-nonstring") {
+	if cookie && a.Type.Kind != m.String && g.avoid("C01-cookie-nonstring") {
 		cookie = false
 	}
 	return
@@ -297,8 +297,7 @@ func (g *G) mapObjectPayload(meth *m.Method, hasBodyVerb bool) {
 		switch rapid.IntRange(0, 5).Draw(t, "bodymode") {
 		case 0:
 			if len(bodyFields) == 1 {
-				f := g.d.FieldByName(meth.Payload, bodyFields[0])
-				if g.d.Underlying(f.Attr) == m.Bytes && g.avoid("C01-body-attr-bytes") {
+				if BodyAttrOptionalNonPointer(g.d, meth.Payload, bodyFields[0]) && g.avoid("C01-body-attr-optional-nonpointer") {
 					break
 				}
 				h.Body = &m.Body{Mode: "attr", Attr: bodyFields[0]}
@@ -500,8 +499,7 @@ func (g *G) mapObjectResult(meth *m.Method) {
 			bodyFields = append(bodyFields, f.Name)
 		}
 	}
-	if g.p.ExplicitBody && !isResultType && len(bodyFields) == 1 && rapid.IntRange(0, 3).Draw(t, "rbodyattr") == 0 &&
-		!(g.d.Underlying(g.d.FieldByName(meth.Result, bodyFields[0]).Attr) == m.Bytes && g.avoid("C01-body-attr-bytes")) {
+	if g.p.ExplicitBody && !isResultType && len(bodyFields) == 1 && rapid.IntRange(0, 3).Draw(t, "rbodyattr") == 0 {
 		r.Body = &m.Body{Mode: "attr", Attr: bodyFields[0]}
 		g.feat("response-body-attr")
 	}
